@@ -295,6 +295,20 @@ static int planned_fault(int call, const char *path) {
         struct fault *ft = &faults[i];
         if (ft->call != call || !ends_with(path, ft->suffix)) continue;
         ft->seen++;
+        if (ft->err <= -1000) {
+            /* a slow device, not an error: this call takes (-err - 1000) ms of real time
+               (the simulated clock does not move; only the order in which concurrent
+               readers finish can change) */
+            if (ft->occurrence == 0 || ft->seen == ft->occurrence) {
+                struct timespec d;
+                long ms = -(long)ft->err - 1000;
+                d.tv_sec = ms / 1000;
+                d.tv_nsec = (ms % 1000) * 1000000L;
+                ft->fired++;
+                syscall(SYS_nanosleep, &d, NULL);
+            }
+            continue;
+        }
         if (result == 0 && (ft->occurrence == 0 || ft->seen == ft->occurrence)) {
             ft->fired++;
             result = ft->err;
